@@ -1,0 +1,33 @@
+// SPDX-FileCopyrightText: 2020-present Open Networking Foundation <info@opennetworking.org>
+//
+// SPDX-License-Identifier: Apache-2.0
+
+//go:build verif
+// +build verif
+
+package transaction
+
+import (
+	configapi "github.com/onosproject/onos-api/go/onos/config/v3"
+	"github.com/onosproject/onos-config/pkg/pluginregistry"
+	"github.com/onosproject/onos-config/pkg/southbound/gnmi"
+	"github.com/onosproject/onos-config/pkg/store/topo"
+	configurationstore "github.com/onosproject/onos-config/pkg/store/v3/configuration"
+	transactionstore "github.com/onosproject/onos-config/pkg/store/v3/transaction"
+)
+
+// NewReconcilerForVerif builds the v3 transaction reconciler for the external verification harness
+func NewReconcilerForVerif(nodeID configapi.NodeID, transactions transactionstore.Store, configurations configurationstore.Store,
+	conns gnmi.ConnManager, topo topo.Store, plugins pluginregistry.PluginRegistry) *Reconciler {
+	return &Reconciler{nodeID: nodeID, transactions: transactions, configurations: configurations, conns: conns, topo: topo, plugins: plugins}
+}
+
+// NewWatcherForVerif builds the v3 transaction store watcher
+func NewWatcherForVerif(transactions transactionstore.Store) *Watcher {
+	return &Watcher{transactions: transactions}
+}
+
+// NewConfigurationWatcherForVerif builds the configuration store watcher of the v3 transaction controller
+func NewConfigurationWatcherForVerif(configurations configurationstore.Store) *ConfigurationWatcher {
+	return &ConfigurationWatcher{configurations: configurations}
+}
